@@ -1,6 +1,7 @@
 SPECIFICATION Spec
 CONSTANTS MaxOuts = 1
  MaxLines = 2
+ Candidates = FALSE
  Timeouts = FALSE
  TwoSteps = TRUE
  Export = TRUE
